@@ -34,14 +34,14 @@ Proof.
 Qed.
 
 (* typep, class-of and the methods a call finds all read the precedence list of the class object, which is
-   the specification's *)
+   the specification's; while the class is not ready (P = []) typep and dispatch see the hierarchy (t) *)
 Theorem typep_classof_dispatch_agree : forall w i, Inv w -> CacheInv w -> current w i = true ->
   exists n P, 
     (forall f l, lin (table w) f n = Some l -> P = n :: l ++ [SO; TT]) /\
     ((forall f, lin (table w) f n = None) -> P = []) /\
     snd (step w (OClassOf i) [] []) = ONames P /\
-    (forall m, snd (step w (OTypep i m) [] []) = OB (memb m P)) /\
-    (forall k, snd (call_gf w k i) = match applicable (get_gf w k) P with [] => None | l => Some l end).
+    (forall m, snd (step w (OTypep i m) [] []) = OB (memb m (hier_of P))) /\
+    (forall k, snd (call_gf w k i) = match applicable (get_gf w k) (hier_of P) with [] => None | l => Some l end).
 Proof.
   intros w i HI HC Hcur.
   destruct (call_gf_spec w 0 i HI HC Hcur) as [ins [c [Ei [Hr _]]]].
@@ -90,14 +90,35 @@ Theorem original_classchanged_order_refuted :
   prec_of (class_changed pre 0 [2; 1]) 2 = [2; 1; 0; 3; SO; TT].
 Proof. vm_compute. repeat split. Qed.
 
-(* (2) a redefinition whose new superclass is not defined yet: the subclass keeps its old precedence list
-   for good, also after the missing class has been defined *)
-Definition w_fwd_prefix : list hstep := [dc 0 [] [] [0] []; dc 1 [0] [] [0; 1] []].
-Definition w_fwd : list hstep := w_fwd_prefix ++ [dc 0 [3] [] [2; 1] [1]; dc 3 [] [] [2; 1; 3] [2]].
-Theorem redefinition_forward_reference_refuted :
-  guard_ops w0 w_fwd_prefix = true /\ guard_ops w0 w_fwd = false /\
+(* (2) REPAIRED (repo_fixes/C12-3, finding C12-redefinition-with-undefined-superclass).  a (=0), b (=1)
+   under a; a is redefined with the superclass z (=3), which is defined afterwards.  The unchanged mergeSupers
+   left b ready with its old list when its re-merge failed, and nothing merged b again.  Now the history is
+   inside the guard: b is not ready while z is missing and has the specification's list once z is defined. *)
+Definition w_fwd_prefix : list hstep := [dc 0 [] [] [0] []; dc 1 [0] [] [0; 1] []; other (OMake 1 [])].
+Definition w_fwd_mid : list hstep := w_fwd_prefix ++ [dc 0 [3] [] [2; 1] [1]].
+Definition w_fwd : list hstep := w_fwd_mid ++ [dc 3 [] [] [2; 1; 3] [2; 1]].
+Theorem redefinition_forward_reference_example :
+  guard_ops w0 w_fwd = true /\
+  prec_of (run w0 w_fwd_mid) 0 = [] /\ prec_of (run w0 w_fwd_mid) 1 = [] /\ spec_prec (run w0 w_fwd_mid) 1 = [] /\
+  snd (step (run w0 w_fwd_mid) (OTypep 0 1) [] []) = OB false /\ snd (step (run w0 w_fwd_mid) (OMake 1 []) [] []) = OErr /\
   prec_of (run w0 w_fwd) 0 = [0; 3; SO; TT] /\
-  prec_of (run w0 w_fwd) 1 = [1; 0; SO; TT] /\ spec_prec (run w0 w_fwd) 1 = [1; 0; 3; SO; TT].
+  prec_of (run w0 w_fwd) 1 = [1; 0; 3; SO; TT] /\ spec_prec (run w0 w_fwd) 1 = [1; 0; 3; SO; TT] /\
+  snd (step (run w0 w_fwd) (OTypep 0 3) [] []) = OB true.
+Proof. vm_compute. repeat split. Qed.
+(* the unchanged code, for the record: a failing merge emptied the inherit list only *)
+Definition merge_orig (w : world) (id : nat) : world :=
+  match get w id with
+  | None => w
+  | Some c =>
+      match phase1 (reg w) (heap w) (co_supers c) [] with
+      | None => with_heap w (set_nth (heap w) id (mkCO (co_name c) (co_supers c) (co_slots c) [] (co_prec c) (co_initargs c) (co_initforms c)))
+      | Some _ => fst (merge w id)
+      end
+  end.
+Theorem original_redefinition_forward_reference_refuted :
+  let pre := defclass_pre (run w0 w_fwd_prefix) 0 [3] [] [2; 1] in
+  prec_of (merge_orig pre 1) 1 = [1; 0; SO; TT] /\ readyb (merge_orig pre 1) 1 = true /\ inherits (merge_orig pre 1) 1 0 = false /\
+  spec_prec pre 1 = [] /\ prec_of (class_changed pre 0 [1]) 1 = [].
 Proof. vm_compute. repeat split. Qed.
 
 (* (3) the dispatch cache is keyed by the class name and survives a redefinition: b (=1) under a (=0) is
